@@ -1,0 +1,184 @@
+//go:build verif
+// +build verif
+
+package gmtls
+
+import (
+	"bufio"
+	"bytes"
+	"errors"
+	"io"
+	"net"
+	"sync/atomic"
+)
+
+// Scripted peer for the verification harness (build tag "verif" only; property C20, harness/c20renegw.go).
+// Nothing here is reachable from, or changes the behaviour of, the library's own code paths.
+//
+// The gmtls server never renegotiates, but a gmtls CLIENT with Config.Renegotiation set accepts a server's
+// HelloRequest. VerifRenegServer is such a server: a TLS 1.2 server connection assembled from the package's own
+// server handshake functions (processClientHello + the full-handshake branch of runServerHandshake) with the two
+// things a renegotiating server does in addition (RFC 5746): it accepts the client's verify_data in the
+// renegotiation_info of the ClientHello and answers with client||server verify_data. It asks for a
+// renegotiation (HelloRequest) every `every` application-data records and performs it when the client's
+// ClientHello arrives, as OpenSSL-family servers do. Only the peer is scripted: the client under test uses
+// the public API.
+
+type verifPeekConn struct {
+	net.Conn
+	br *bufio.Reader
+}
+
+func (p *verifPeekConn) Read(b []byte) (int, error) { return p.br.Read(b) }
+
+// VerifRenegPeer is the scripted renegotiating server. All of its methods are to be called from ONE goroutine.
+type VerifRenegPeer struct {
+	s      *Conn
+	pc     *verifPeekConn
+	renegs int64
+	asked  int64
+	bytes  int64
+}
+
+// VerifRenegServer returns the scripted server over conn (TLS 1.2, cfg.Certificates).
+func VerifRenegServer(conn net.Conn, cfg *Config) *VerifRenegPeer {
+	pc := &verifPeekConn{Conn: conn, br: bufio.NewReaderSize(conn, 1<<16)}
+	return &VerifRenegPeer{s: Server(pc, cfg), pc: pc}
+}
+
+// Renegotiations returns the number of renegotiations completed so far (safe from any goroutine).
+func (p *VerifRenegPeer) Renegotiations() int { return int(atomic.LoadInt64(&p.renegs)) }
+
+// Asked returns the number of HelloRequests sent so far (safe from any goroutine).
+func (p *VerifRenegPeer) Asked() int { return int(atomic.LoadInt64(&p.asked)) }
+
+// Received returns the number of application-data bytes read so far (safe from any goroutine). The count is
+// updated after the HelloRequest that the data may have triggered: once Received() has reached what the client
+// wrote, Asked() is final.
+func (p *VerifRenegPeer) Received() int { return int(atomic.LoadInt64(&p.bytes)) }
+
+// Handshake performs the initial handshake.
+func (p *VerifRenegPeer) Handshake() error { return p.lockedHandshake() }
+
+func (p *VerifRenegPeer) lockedHandshake() error {
+	s := p.s
+	s.handshakeMutex.Lock()
+	defer s.handshakeMutex.Unlock()
+	s.in.Lock()
+	defer s.in.Unlock()
+	atomic.StoreUint32(&s.handshakeStatus, 0)
+	return verifRenegServerHandshake(s)
+}
+
+func verifRenegServerHandshake(s *Conn) error {
+	s.config.serverInitOnce.Do(func() { s.config.serverInit(nil) })
+	msg, err := s.readHandshake()
+	if err != nil {
+		return err
+	}
+	ch, ok := msg.(*clientHelloMsg)
+	if !ok {
+		return errors.New("verif: scripted server expected a ClientHello")
+	}
+	hs := &serverHandshakeState{c: s, clientHello: ch}
+	sr := ch.secureRenegotiation
+	if s.handshakes > 0 && !bytes.Equal(sr, s.clientFinished[:]) {
+		return errors.New("verif: scripted server: bad renegotiation_info")
+	}
+	ch.secureRenegotiation = nil // the raw bytes (used for the transcript) are kept
+	_, err = processClientHello(s, hs)
+	ch.secureRenegotiation = sr
+	if err != nil {
+		return err
+	}
+	if s.handshakes > 0 {
+		hs.hello.secureRenegotiation = append(append([]byte{}, s.clientFinished[:]...), s.serverFinished[:]...)
+	}
+	s.buffering = true
+	if err := hs.doFullHandshake(); err != nil {
+		return err
+	}
+	if err := hs.establishKeys(); err != nil {
+		return err
+	}
+	if err := hs.readFinished(s.clientFinished[:]); err != nil {
+		return err
+	}
+	s.clientFinishedIsFirst = true
+	s.buffering = true
+	if err := hs.sendSessionTicket(); err != nil {
+		return err
+	}
+	if err := hs.sendFinished(s.serverFinished[:]); err != nil {
+		return err
+	}
+	if _, err := s.flush(); err != nil {
+		return err
+	}
+	s.handshakes++
+	atomic.StoreUint32(&s.handshakeStatus, 1)
+	return nil
+}
+
+// Serve reads until the client closes the connection (returns nil) or something fails. Every chunk of
+// application data is handed to sink together with whether a reply may be sent now (not while a HelloRequest
+// is unanswered: the client refuses application data in the middle of its handshake); what sink returns is
+// written back to the client. After every `every` reads of application data (every > 0) the server sends a
+// HelloRequest, unless one is pending or maxRenegs have been sent; a handshake record from the client starts
+// the renegotiation.
+func (p *VerifRenegPeer) Serve(every, maxRenegs int, sink func(data []byte, mayReply bool) []byte) error {
+	s := p.s
+	buf := make([]byte, 4096)
+	pending := false
+	recs := 0
+	for {
+		var typ recordType
+		switch {
+		case s.input != nil:
+			typ = recordTypeApplicationData
+		case s.rawInput != nil && len(s.rawInput.data) > 0:
+			typ = recordType(s.rawInput.data[0])
+		default:
+			b, err := p.pc.br.Peek(1)
+			if err != nil {
+				return nil
+			}
+			typ = recordType(b[0])
+		}
+		if typ == recordTypeHandshake {
+			if err := p.lockedHandshake(); err != nil {
+				return err
+			}
+			atomic.AddInt64(&p.renegs, 1)
+			pending = false
+			continue
+		}
+		n, err := s.Read(buf)
+		if n > 0 && sink != nil {
+			if reply := sink(buf[:n], !pending && err == nil); len(reply) > 0 && !pending && err == nil {
+				if _, werr := s.Write(reply); werr != nil {
+					return werr
+				}
+			}
+		}
+		if err != nil {
+			atomic.AddInt64(&p.bytes, int64(n))
+			if err == io.EOF {
+				err = nil
+			}
+			return err
+		}
+		recs++
+		if every > 0 && !pending && recs%every == 0 && int(atomic.LoadInt64(&p.asked)) < maxRenegs {
+			pending = true
+			atomic.AddInt64(&p.asked, 1)
+			if _, err := s.writeRecord(recordTypeHandshake, new(helloRequestMsg).marshal()); err != nil {
+				return err
+			}
+		}
+		atomic.AddInt64(&p.bytes, int64(n))
+	}
+}
+
+// Close closes the server side.
+func (p *VerifRenegPeer) Close() error { return p.s.Close() }
